@@ -52,6 +52,7 @@ func c03Child() {
 			{Login: "guest", Name: "guest", Password: "", Access: guestAccess()},
 			{Login: "admin", Name: "admin", Password: "secret", Access: allAccess()},
 			{Login: "power", Name: "power", Password: "pw", Access: power},
+			{Login: "kicker", Name: "kicker", Password: "kk", Access: accessOf(hotline.AccessDisconUser, hotline.AccessGetClientInfo, hotline.AccessSendPrivMsg, hotline.AccessOpenChat, hotline.AccessReadChat, hotline.AccessSendChat)},
 		}})
 	if err != nil {
 		fmt.Println("CHILD-ERROR", err)
@@ -437,8 +438,38 @@ func hostileControl(r *RNG, src string, port int) (string, bool) {
 	}
 	defer c.Close()
 	var script bytes.Buffer
-	kind := r.Intn(6)
+	kind := r.Intn(7)
 	switch kind {
+	case 6: // a client allowed to disconnect users names targets nobody holds (ids >= 0x4000, odd lengths), with and without ban options
+		script.Write(clientHandshake)
+		script.Write(encTran(loginTran(1, "kicker", "kk", fld(hotline.FieldUserName, []byte("k")))))
+		n := 1 + r.Intn(4)
+		for i := 0; i < n; i++ {
+			id := be16(0x4000 + r.Intn(0x8000))
+			switch r.Intn(6) {
+			case 0:
+				id = id[:1]
+			case 1:
+				id = append(id, 0, byte(r.Intn(256)))
+			}
+			fs := []hotline.Field{fld(hotline.FieldUserID, id)}
+			switch r.Intn(5) {
+			case 0:
+				fs = append(fs, fld(hotline.FieldOptions, []byte{0, 1}))
+			case 1:
+				fs = append(fs, fld(hotline.FieldOptions, []byte{0, 2}))
+			case 2:
+				fs = append(fs, fld(hotline.FieldOptions, r.Bytes(r.Intn(3))))
+			}
+			ty := []hotline.TranType{hotline.TranDisconnectUser, hotline.TranDisconnectUser, hotline.TranGetClientInfoText, hotline.TranSendInstantMsg, hotline.TranInviteNewChat}[r.Intn(5)]
+			if ty == hotline.TranSendInstantMsg {
+				fs = append(fs, fld(hotline.FieldData, r.Text(r.Intn(20))))
+			}
+			script.Write(encTran(mkTran(ty, uint32(2+i), fs...)))
+			if r.Chance(40) { // the connection may be dropped by a contained panic: log in again on the same stream is impossible, so just go on
+				script.Write(hostileTransaction(r))
+			}
+		}
 	case 0: // pure garbage
 		script.Write(r.Bytes(1 + r.Intn(200)))
 	case 1: // handshake then garbage
@@ -646,7 +677,7 @@ func hostileTransfer(r *RNG, src string, port int) (string, bool) {
 
 func init() {
 	props["C03"] = func(x *Ctx) {
-		x.rule = "one case = one child-process server + sentinel client + a batch of hostile connections (control: garbage, mutated handshakes, bad logins, logged-in guest/power clients sending 46 transaction types with hostile/plausible field mixes incl. the known panic triggers, cuts mid-transaction; transfer port: garbage preambles, genuine reference numbers followed by corrupt flattened-file objects, short info forks, folder-download resume data of odd lengths, folder-upload item headers with bad sizes), each from its own loopback source address, run concurrently; judged: child alive, sentinel answered within 8 s, user list and stats equal what the sentinel alone accounts for. non-trivial = a hostile connection whose handshake the server answered (control) or that presented a genuine reference number (transfer); distinct = distinct byte script"
+		x.rule = "one case = one child-process server + sentinel client + a batch of hostile connections (control: garbage, mutated handshakes, bad logins, logged-in guest/power clients sending 46 transaction types, a client holding the disconnect-users privilege naming user ids nobody holds (with/without ban options, odd id lengths) in disconnect / client-info / instant-message / invite requests, with hostile/plausible field mixes incl. the known panic triggers, cuts mid-transaction; transfer port: garbage preambles, genuine reference numbers followed by corrupt flattened-file objects, short info forks, folder-download resume data of odd lengths, folder-upload item headers with bad sizes), each from its own loopback source address, run concurrently; judged: child alive, sentinel answered within 8 s, user list and stats equal what the sentinel alone accounts for. non-trivial = a hostile connection whose handshake the server answered (control) or that presented a genuine reference number (transfer); distinct = distinct byte script"
 		x.assume = []string{
 			"loopback TCP from 127.x.y.z source addresses stands for remote clients",
 			"memory exhaustion, scheduler fairness, goroutine pile-up behind a never-reading client and data races on non-map fields are not exhibited by this check (partial)",
